@@ -16,7 +16,8 @@ What is judged (transcription of the property text):
   U  URL == base URL (trailing '/' stripped) + path template, each ``{var}`` replaced by exactly one segment; no
      fragment; no '.'/'..' raw segments; the segment, percent-decoded and style-decoded, recovers the captured value.
   Q  query / header / Cookie decoders recover the captured value up to string coercion (1<->"1", true<->"true",
-     null<->"null"); no query parameter / cookie / header other than the generated ones, the configured ones, the standard
+     null<->"null"; Python's str() spellings 'True'/'False'/'None' are accepted as coercions too, as C01 does, and counted
+     as ``trivial:python_spelling``); no query parameter / cookie / header other than the generated ones, the configured ones, the standard
      client headers (User-Agent, Accept, Accept-Encoding, Connection, Content-Length, Content-Type, Host) and
      X-Schemathesis-TestCaseId.
   B  JSON bodies ``json.loads`` to the case body, urlencoded bodies split back to the case body's pairs, text bodies
@@ -588,6 +589,31 @@ def _template_regex(template: str) -> tuple[re.Pattern, list[str]]:
     return re.compile("^" + pattern + "$"), names
 
 
+def _leaf_py(expected: Any, got: Any) -> bool:
+    """String coercion as C01 reads it: besides the JSON spelling, Python's str() of a boolean/None ('True', 'False', 'None')."""
+    return S.leaf_matches(expected, got) or ((isinstance(expected, bool) or expected is None) and got == str(expected))
+
+
+def _matches_py(expected: Any, reading: Any) -> bool:
+    if reading is S.ABSENT or reading is None:
+        return False
+    if isinstance(expected, (list, tuple)):
+        return isinstance(reading, list) and len(reading) == len(expected) and all(_leaf_py(e, r) for e, r in zip(expected, reading))
+    if isinstance(expected, dict):
+        return (isinstance(reading, dict) and set(reading) == {str(k) for k in expected}
+                and all(_leaf_py(v, reading[str(k)]) for k, v in expected.items()))
+    return _leaf_py(expected, reading)
+
+
+def recovered(expected: Any, readings: list) -> str | None:
+    """'exact' (JSON spelling), 'python' (only with True/False/None read as booleans/null) or None."""
+    if S.any_matches(expected, readings):
+        return "exact"
+    if any(_matches_py(expected, r) for r in readings):
+        return "python"
+    return None
+
+
 def _space_as_plus(value: Any) -> Any:
     if isinstance(value, str):
         return value.replace(" ", "+")
@@ -668,10 +694,8 @@ def diagnose(p: Param, expected: Any, readings: list, wire: Wire, raw_segment: s
             if alt is not None and any(S.json_equal(expected, r) for r in S.decode_json_content(alt)):
                 return "space_sent_as_plus"
         return "json_document_differs"
-    if S.python_spelling(expected, real):
-        return "python_spelling_of_bool_or_null"
     if p.location == "path" and raw_segment is not None:
-        # which of {'+' read as space, ";name=" put back, Python spelling} make the value come back? fewest first
+        # which of {'+' read as space, ";name=" put back} make the value come back? fewest first
         best: list[str] | None = None
         for plus in (False, True):
             if plus and "+" not in raw_segment:
@@ -692,12 +716,9 @@ def diagnose(p: Param, expected: Any, readings: list, wire: Wire, raw_segment: s
                 except S.Undefined:
                     continue
                 alt = [r for r in alt if r is not None and r is not S.ABSENT]
-                for python in (False, True):
-                    ok = S.python_spelling(expected, alt) if python else S.any_matches(expected, alt)
-                    flags = (["space_sent_as_plus"] if plus else []) + (["matrix_without_parameter_name"] if matrix else []) + (
-                        ["python_spelling_of_bool_or_null"] if python else [])
-                    if ok and flags and (best is None or len(flags) < len(best)):
-                        best = flags
+                flags = (["space_sent_as_plus"] if plus else []) + (["matrix_without_parameter_name"] if matrix else [])
+                if flags and recovered(expected, alt) and (best is None or len(flags) < len(best)):
+                    best = flags
         if best:
             return "+".join(best)
         if raw_segment == "" and p.kind == "primitive" and not isinstance(expected, str) and not expected:
@@ -907,7 +928,13 @@ def judge(res: Result, item: dict, expect: Expect, case: Any, captured: dict, wi
             continue
         compared += 1
         res.count(f"compared:{p.location}")
-        ok = any(S.json_equal(expected, r) for r in readings if r is not S.ABSENT) if p.json_content else S.any_matches(expected, readings)
+        if p.json_content:
+            ok = any(S.json_equal(expected, r) for r in readings if r is not S.ABSENT)
+        else:
+            how = recovered(expected, readings)
+            ok = how is not None
+            if how == "python":
+                res.count("trivial:python_spelling")  # 'True'/'False'/'None' are string coercions too (as in C01)
         if not ok:
             facts = p.facts()
             if phase == "coverage" and set(container) - {q.name for q in by_location.get(p.location, [])} - (
@@ -1015,17 +1042,20 @@ def judge(res: Result, item: dict, expect: Expect, case: Any, captured: dict, wi
                         if ok:
                             # same multiset of pairs up to string coercion; order among different names is free
                             remaining = list(got_pairs)
+                            via_python = False
                             for k, v in want:
                                 hit = next((i for i, (gk, gv) in enumerate(remaining) if gk == k and S.leaf_matches(v, gv)), None)
+                                if hit is None:
+                                    hit = next((i for i, (gk, gv) in enumerate(remaining) if gk == k and _leaf_py(v, gv)), None)
+                                    via_python = via_python or hit is not None
                                 if hit is None:
                                     ok = False
                                     break
                                 remaining.pop(hit)
+                            if ok and via_python:
+                                res.count("trivial:python_spelling")
                         if not ok:
-                            py = [(k, str(v)) for k, v in want]
-                            cause = "python_spelling_of_bool_or_null" if sorted(py) == sorted(got_pairs) and any(
-                                isinstance(v, bool) for _, v in want) else "different_pairs"
-                            violation({"kind": "body_not_roundtrip", "cause": cause, **facts}, {"decoded": got_pairs})
+                            violation({"kind": "body_not_roundtrip", "cause": "different_pairs", **facts}, {"decoded": got_pairs})
                 elif main == "text/plain" and not isinstance(case.body, (str, bytes)):
                     res.count("trivial:text_body_that_is_not_text")
                 elif main == "text/plain":
@@ -1038,9 +1068,7 @@ def judge(res: Result, item: dict, expect: Expect, case: Any, captured: dict, wi
                     else:
                         same = wire.body == case.body if isinstance(case.body, bytes) else got_text == case.body
                         if not same:
-                            cause = "python_spelling_of_bool_or_null" if got_text == str(case.body) and (
-                                isinstance(case.body, bool) or case.body is None) else "different_text"
-                            violation({"kind": "body_not_roundtrip", "cause": cause, **facts}, {"decoded": got_text})
+                            violation({"kind": "body_not_roundtrip", "cause": "different_text", **facts}, {"decoded": got_text})
                 else:
                     res.count("trivial:media_type_outside_property")
 
